@@ -77,7 +77,7 @@ func init() {
 		{
 			ID:          "C01",
 			Rules:       []RuleUse{use("R-DISPATCH", "v5"), use("R-TOKEN", "v5"), use("R-TOKTAB", "v5"), use("R-REPLACE", "v5"), use("R-MOVE", "v5"), use("R-COPYISO", "v5"), use("R-TYPESTATE", "v5"), use("R-SUCCESS", "v5"), {Rule: "R-BOUNDS", Bodies: []string{"v5"}, KeyHas: []string{"(*partialArray)", "findObject", "(*partialDoc)"}}, use("R-NEGIDX", "v5"), use("R-SELF", "v5"), use("R-NULLSPELL", "v5"), use("R-EQSHAPE", "v5"), {Rule: "R-ERRCHAIN", Bodies: []string{"v5"}, KeyHas: []string{"TEST-ABSENT"}}, {Rule: "R-KEYS", Bodies: []string{"v5"}, KeyHas: []string{"(*partialDoc)", "(Patch)", "emitter"}}, {Rule: "R-ABSENT", Bodies: []string{"v5"}, KeyHas: []string{"(*partialDoc)", ".equal"}}},
-			Explanation: "Decided for the v5 body: R-KEYS + R-ABSENT (an object's member list and member map stay in step through add/replace/remove/move: a member is written exactly once into the result, a replaced member — also one holding null — is not listed twice, absent and null are told apart by the comma-ok flag), R-ERRCHAIN TEST-ABSENT (the tolerance of test for an absent location covers object members only: the array lookup never reports ErrMissing, so an index outside the array fails the test), R-DISPATCH (all six RFC 6902 operations reach the handler with that operation's container effects; validator table = RFC 6902 §4; verdict cannot be bypassed), R-TOKEN + R-TOKTAB (every reference token obtained by splitting a path is decoded exactly once, by a decoder whose table and order are RFC 6901's, on every route to a member lookup, insertion or removal), R-REPLACE (replace requires the target to exist), R-MOVE (move = get, remove of the same container/key, destination resolved after the removal, add of that same value), R-COPYISO (copy inserts a fresh deep duplicate, never an alias), R-TYPESTATE (a null root is held as a nil container that every later operation rejects instead of dereferencing). R-SUCCESS (every handler reports success only after performing its operation). R-BOUNDS + R-NEGIDX (the index arithmetic of the four array methods stays in range for every parsed index and both SupportNegativeIndices settings; a negative index is honoured only under the option and is an error otherwise). R-SELF (the empty reference token denotes the container as it is now — a node built over the live container — never the parse-time snapshot: copy from \"\" sees the earlier operations). R-NULLSPELL (a test verdict on a non-nil looked-up node always consults that node's content, so a null stored by add/replace — a non-nil node whose text is null — is seen as null by later test operations).",
+			Explanation: "Decided for the v5 body: R-KEYS + R-ABSENT (an object's member list and member map stay in step through add/replace/remove/move: a member is written exactly once into the result, a replaced member — also one holding null — is not listed twice, absent and null are told apart by the comma-ok flag), R-ERRCHAIN TEST-ABSENT (the tolerance of test for an absent location covers object members only: the array lookup never reports ErrMissing, so an index outside the array fails the test), R-DISPATCH (all six RFC 6902 operations reach the handler with that operation's container effects; validator table = RFC 6902 §4; verdict cannot be bypassed), R-TOKEN + R-TOKTAB (every reference token obtained by splitting a path is decoded exactly once, by a decoder whose table and order are RFC 6901's, on every route to a member lookup, insertion or removal), R-REPLACE (replace requires the target to exist), R-MOVE (move = get, remove of the same container/key, destination resolved after the removal, add of that same value), R-COPYISO (copy inserts a fresh deep duplicate, never an alias), R-TYPESTATE (a null root is held as a nil container that every later operation rejects instead of dereferencing). R-SUCCESS (every handler reports success only after performing its operation). R-BOUNDS + R-NEGIDX (the index arithmetic of the four array methods stays in range for every parsed index and both SupportNegativeIndices settings; a negative index is honoured only under the option and is an error otherwise). R-SELF (copy from \"\" copies the document as it is now — a node built over the live root, never the parse-time snapshot, and every root installed by the patch carries its self; the container lookups hand out members only, so the token \"\" names the member with the empty name and a container can never be inserted into itself; the node for the live container is only deep-copied or compared). R-NULLSPELL (a test verdict on a non-nil looked-up node always consults that node's content, so a null stored by add/replace — a non-nil node whose text is null — is seen as null by later test operations).",
 			NotDecided:  "that the resulting values equal the RFC 6902 result (value-level: needs the contents of the lazily parsed byte slices); value-level agreement of equal() with RFC equality beyond the null-spelling mechanism; index semantics beyond range safety.",
 			Trusted:     commonTrusted, Assumptions: commonAssumptions,
 		},
@@ -97,8 +97,8 @@ func init() {
 		},
 		{
 			ID:          "C04",
-			Rules:       []RuleUse{{Rule: "R-GATE", Bodies: []string{"v5", "codec"}, KeyHas: []string{"validity-assuming parse", "sink "}}, use("R-NIL"), use("R-TYPESTATE"), use("R-RAW"), use("R-STALERAW"), use("R-DISPATCH"), use("R-REPLACE"), use("R-COPYISO"), use("R-SCAN", "codec"), use("R-DRIVER", "codec"), {Rule: "R-KEYS", Bodies: []string{"v5"}, KeyHas: []string{"emitter", "obj != nil", "whole-map"}}, use("R-BOUNDS"), use("R-NEGIDX"), use("R-PANIC"), use("R-EXH")},
-			Explanation: "Decided for both library bodies, as a census of potential panic sites: R-GATE (every exported []byte parameter passes json.Valid before any validity-assuming parse, which panics on ill-formed text), R-NIL (every dereference of a node/container/raw message that may be the nil spelling of null is guarded on every path), R-TYPESTATE (which==eDoc implies a non-nil doc; a nil array container is confined to the root slot and scratch nodes and every consumer tests for it), R-RAW (raw is dereferenced only where it cannot be nil), R-STALERAW (raw bytes are re-read as content only while the node is unparsed), R-DISPATCH (handlers dereference only the members the validator requires for their kind), R-REPLACE (set on an array only after a successful get of the same slot, which is what bounds its index), R-COPYISO (copy never inserts an alias of the source, so no operation sequence can make a value contain itself — the encoder would never return on a cyclic document), R-SCAN + R-DRIVER (the json.Valid gate that the panic-freedom of the validity-assuming decoder rests on accepts exactly RFC 8259), R-KEYS (inserts into the member map happen only under an obj != nil fact — a nil map write panics; the trusted emitter writes names and values only through the codec's encoder, so what it emits — and the unvalidated parser later re-reads — is well-formed). R-BOUNDS (every index / slice / make of both library bodies is proved in range from dominating linear facts, or is a reviewed exception naming the invariant it relies on — content-dependent first-byte reads, the keys splice, set-after-get), R-NEGIDX. R-PANIC + R-EXH (the rest of the census: the explicit panic in getDiff is the default arm of a type switch that covers every dynamic type the decoder can produce; every single-value type assertion is guarded by reflect.TypeOf equality plus a successful assertion of the other operand; every map update is on a fresh or non-nil-tested map).",
+			Rules:       []RuleUse{{Rule: "R-GATE", Bodies: []string{"v5", "codec"}, KeyHas: []string{"validity-assuming parse", "sink ", "encoder output"}}, use("R-SELF", "v5"), use("R-NIL"), use("R-TYPESTATE"), use("R-RAW"), use("R-STALERAW"), use("R-DISPATCH"), use("R-REPLACE"), use("R-COPYISO"), use("R-SCAN", "codec"), use("R-DRIVER", "codec"), {Rule: "R-KEYS", Bodies: []string{"v5"}, KeyHas: []string{"emitter", "obj != nil", "whole-map"}}, use("R-BOUNDS"), use("R-NEGIDX"), use("R-PANIC"), use("R-EXH")},
+			Explanation: "Decided for both library bodies, as a census of potential panic sites: R-GATE (every exported []byte parameter passes json.Valid before any validity-assuming parse, which panics on ill-formed text; text the library produces itself and keeps as a node — the encoded copy made by the copy operation — passes the same gate, because the encoder can emit a text nested deeper than the scanner accepts), R-SELF (no container can be inserted into itself: the lookups hand out members only and the node for the live container is never inserted, so the document stays a tree and writing it out terminates), R-NIL (every dereference of a node/container/raw message that may be the nil spelling of null is guarded on every path), R-TYPESTATE (which==eDoc implies a non-nil doc; a nil array container is confined to the root slot and scratch nodes and every consumer tests for it), R-RAW (raw is dereferenced only where it cannot be nil), R-STALERAW (raw bytes are re-read as content only while the node is unparsed), R-DISPATCH (handlers dereference only the members the validator requires for their kind), R-REPLACE (set on an array only after a successful get of the same slot, which is what bounds its index), R-COPYISO (copy never inserts an alias of the source, so no operation sequence can make a value contain itself — the encoder would never return on a cyclic document), R-SCAN + R-DRIVER (the json.Valid gate that the panic-freedom of the validity-assuming decoder rests on accepts exactly RFC 8259), R-KEYS (inserts into the member map happen only under an obj != nil fact — a nil map write panics; the trusted emitter writes names and values only through the codec's encoder, so what it emits — and the unvalidated parser later re-reads — is well-formed). R-BOUNDS (every index / slice / make of both library bodies is proved in range from dominating linear facts, or is a reviewed exception naming the invariant it relies on — content-dependent first-byte reads, the keys splice, set-after-get), R-NEGIDX. R-PANIC + R-EXH (the rest of the census: the explicit panic in getDiff is the default arm of a type switch that covers every dynamic type the decoder can produce; every single-value type assertion is guarded by reflect.TypeOf equality plus a successful assertion of the other operand; every map update is on a fresh or non-nil-tested map).",
 			NotDecided:  "termination and stack exhaustion; panics inside the inherited decoder/encoder and reflect on well-formed input (trusted codec contract); run-time out-of-memory.",
 			Trusted:     commonTrusted, Assumptions: commonAssumptions,
 		},
